@@ -1299,6 +1299,11 @@ def remove_redundant_transpose_add_forests_ir(graph: ir.Graph) -> None:
             if match is None:
                 continue
             add_nodes, perm_fwd, _perm_inv, input_transposes, output_transposes = match
+            if any(t_node in output_transposes for t_node in input_transposes):
+                # A (self-inverse) Transpose that is both an input of the forest
+                # and a consumer of it: the forest cannot be moved to the other
+                # layout (and the node would be removed twice).
+                continue
 
             # Rewrite Add inputs from Transpose(perm_fwd)(x) to x.
             for add_node in add_nodes:
@@ -1471,6 +1476,23 @@ def remove_redundant_transpose_pairs_ir(graph: ir.Graph) -> None:
                 or perm_inv is None
                 or not _is_inverse_perm(perm_fwd, perm_inv)
             ):
+                continue
+
+            # A (self-inverse) Transpose can be both an input of the chain and a
+            # consumer of one of its values; moving the chain to the other layout
+            # would then feed it its own un-transposed value.
+            chain_set = set(add_chain)
+            reads_chain_value = False
+            for node in add_chain:
+                for iv in _node_inputs(node):
+                    prod = _producer_node(nodes, iv)
+                    if prod is None or _op_type(prod) != "Transpose":
+                        continue
+                    if _transpose_perm(prod) != perm_fwd:
+                        continue
+                    if _producer_node(nodes, _first_input(prod)) in chain_set:
+                        reads_chain_value = True
+            if reads_chain_value:
                 continue
 
             # Rewrite: move Add chain to pre-transpose layout (NCHW).
